@@ -370,8 +370,8 @@ history iff every event is inside the recorded exclusions:
 * `Ping` only while no ping is outstanding (the single ping slot);
 * at every dispatch no callback is held under two different filters that both
   match the delivered topic (`E9free`, E9);
-* filters and delivered topic names without empty and without `$`-led levels
-  (`good`, B3/B4), delivered names valid, QoS <= 2;
+* filters and delivered topic names without empty levels and not beginning
+  with `$` (`good`, B3), delivered names valid, QoS <= 2;
 * QoS 1/2 publishes, subscribes, unsubscribes carry a caller-supplied non-zero
   identifier (the reference client cannot track library-assigned ones);
 * and the peer keeps to the protocol where the property is silent: SUBACK
